@@ -36,6 +36,11 @@ var fixed = []core.Case{
 	{ID: "fix-failed-batch-direct-write", NT: true, Ops: []string{"put req 20 20:aa", "put req 20 c0:bb", "set pin 20 20,41", "reopen"}},
 	{ID: "fix-sync", NT: true, Ops: []string{"put up - 80:aa", "set sync - 80", "set sync - 80", "set pin 80 80", "reopen"}},
 	{ID: "fix-remove-root-entry", NT: true, Ops: []string{"put req 80 80:aa", "put req 80 81:bb", "set remove 80 81", "set remove 80 80", "reopen"}},
+	// GCounter-- on the GCounter=0 entry of ModeSetSync wraps to 2^64-1; the next GCounter++ (setGC / setUnpin) wraps back to 0
+	{ID: "fix-wrap-increment-put", NT: true, Ops: []string{"put up - 80:aa", "set sync - 80", "set pin 80 80", "put req 80 81:bb", "reopen"}},
+	{ID: "fix-wrap-increment-unpin", NT: true, Ops: []string{"put up - 80:aa", "set sync - 80", "set pin 80 80", "set unpin 80 80", "reopen"}},
+	// a collection run that quiesces while the wrapped counter is still in the index
+	{ID: "fix-wrapped-counter-gc", NT: true, Ops: []string{"put up - 80:aa", "set sync - 80", "set pin 80 80", "put req 40 40:01", "cap 1", "pyr 40 -", "gcsel", "gcevict", "reopen"}},
 }
 
 func (prop) Gen(r *core.Rand, tier string) []core.Case {
@@ -118,6 +123,17 @@ func anyZeroCounter(d *lsharness.Dump) bool {
 	return false
 }
 
+// anyWrappedCounter: a gc entry whose GCounter is in the upper half of uint64.  A counter counts chunks of one
+// file, so such a value only arises by `GCounter--` on 0 (uint64 wrap).
+func anyWrappedCounter(d *lsharness.Dump) bool {
+	for _, g := range d.GC {
+		if g.GCounter >= 1<<63 {
+			return true
+		}
+	}
+	return false
+}
+
 // Check: the accounting invariant gcSize = Σ GCounter must be *preserved* by every operation
 // outside a collection run and by a whole collection run; every op that changes the difference
 // is reported under a clause naming the trigger shape.
@@ -161,6 +177,10 @@ func (o *oracle) Check(ctx *core.Ctx, ev *lsharness.Event) {
 			switch {
 			case forcedZero:
 				ctx.Fail("bounded-sum-forced-zero", "collection recycled nothing, forced gcSize to 0 and reported done with ΣGCounter=%d > capacity %d", a.GCSum(), ev.GCCapacity)
+			case anyWrappedCounter(a):
+				// a GCounter that wrapped below zero (GCounter-- on a GCounter=0 entry left by ModeSetSync) is alone
+				// above every capacity; the signed difference gcSize-Σ is meaningless here, so this comes first
+				ctx.Fail("bounded-sum-wrapped-counter", "collection quiesced (done) with a gc entry whose GCounter wrapped below zero (GCounter-- on a GCounter=0 entry left by ModeSetSync): ΣGCounter=%d > capacity %d (gcSize=%d)", a.GCSum(), ev.GCCapacity, a.GCSize)
 			case db < 0 || da < 0:
 				ctx.Fail("bounded-sum-undercount", "collection quiesced (done) with ΣGCounter=%d > capacity %d because gcSize undercounts Σ (before the run %d vs %d, after it %d vs %d)", a.GCSum(), ev.GCCapacity, b.GCSize, b.GCSum(), a.GCSize, a.GCSum())
 			default:
